@@ -74,6 +74,15 @@ LOOKALIKE = {"int": ["int64", "dur", "float64", "nil", "string"], "string": ["my
              "dur": ["int", "int64", "nil", "fakedur", "fakedur"], "bool": ["int", "nil", "string"]}
 
 
+# what a function returns: nil, an ordinary error, odd non-nil errors, and errors that LOOK transient (system errors, texts a
+# retry heuristic would match) - mg.F's Run calls the function once whatever it returns
+ERRMODES = ["nil", "err", "err", "typednil", "nilmap", "empty", "etxtbsy", "eagain", "eintr", "canceled", "deadline",
+            "text:fork/exec /tmp/mage-bin: text file busy", "text:resource temporarily unavailable", "text:interrupted system call",
+            "text:read tcp 10.0.0.1:443: connection reset by peer", "text:i/o timeout", "text:too many open files",
+            "text:signal: killed", "text:exit status 1", "text:EOF", "text:retry", "text:context canceled", "text:TLS handshake timeout",
+            "text:no space left on device", "text:stale NFS file handle", "text:running \"go\" failed with exit code 1"]
+
+
 def right_args(rng, s):
     """the argument list the property sentence asks for (None when the signature admits none)."""
     ins = list(s["ins"])
@@ -118,7 +127,7 @@ def gen_case(rng, sigs, i, fn=None):
     elif r < 0.63:
         args = [{"t": "ns"}] + args
         kind = "explicit-ns"
-    return {"op": "F", "fn": fn, "args": args, "errmode": rng.choice(["nil", "err", "err", "typednil", "nilmap", "empty"]), "kind": kind}
+    return {"op": "F", "fn": fn, "args": args, "errmode": rng.choice(ERRMODES), "kind": kind}
 
 
 # ---- oracle: the property sentence, independently of the Coq model
@@ -180,7 +189,7 @@ def run(ctx):
     # path, instantiations of a generic function (known finding F23 is C01's) - probes of harness/depsrun
     go_build_harness(ctx, "depsrun")
     from checks.c01 import contention
-    contention(ctx, parts=("escaped", "custom"), rounds=50)
+    contention(ctx, parts=("escaped", "custom", "ambient"), rounds=50)
     binp = go_build_harness(ctx, "unitrun")
     sigs = json.load(open(os.path.join(ctx.tmp, "src_unitrun", "pool.json")))
     n = 3000 if ctx.quick else 60000
@@ -229,7 +238,13 @@ def run(ctx):
                                   raw + b"\xef\xbf\xbd", raw.upper(),
                                   # spellings an id encoding might confuse with the value itself
                                   raw.hex().encode(), raw.hex().upper().encode(), base64.b64encode(raw), json.dumps(raw.decode("latin-1")).encode(),
-                                  json.dumps(raw.decode("utf-8", "replace")).encode()[1:-1], raw.decode("utf-8", "replace").encode("utf-8")])
+                                  json.dumps(raw.decode("utf-8", "replace")).encode()[1:-1], raw.decode("utf-8", "replace").encode("utf-8"),
+                                  # spellings a NORMALISATION (paths, case, blanks, Unicode forms, line ends) would conflate
+                                  b"./" + raw, raw + b"/", raw + b"/.", raw + b"/x/..", raw.replace(b"/", b"//") if b"/" in raw else raw + b"//",
+                                  raw.replace(b"/", b"\\") if b"/" in raw else raw + b"\\", raw.lower(), raw.swapcase(), raw + b" ", b" " + raw, raw + b"\n",
+                                  raw + b"\r", raw + b"\t", raw.strip() if raw.strip() != raw else raw + b"\x00",
+                                  raw.replace(b"\xc3\x9c", b"U\xcc\x88") if b"\xc3\x9c" in raw else raw + b"\xcc\x88",
+                                  b"/" + raw, raw.replace(b":", b"/", 1), raw.replace(b"\\", b"/") if b"\\" in raw else raw + b"/../" + raw])
                 b[j]["b"] = base64.b64encode(alt).decode()
             elif t == "int":
                 b[j]["v"] = b[j]["v"] + rng.choice([1, -1, 10])
